@@ -131,7 +131,21 @@ def build(kind, u, shared=None):
         c.set_data(frame, output_observable_dict={OUTS[0]: 'obs0', OUTS[1]: 'obs1'})
         c.set_log_prior(prior(6))
         u['ctrl'], u['frame'] = c, frame
-        return c.get_log_posterior(individual='2'), X_LL
+        # siblings derived from the controller before and after it hands out an individual's posterior are the same: the
+        # predictive model carries the regimen of the user's model, not the doses of whoever's posterior was built last
+        with warnings.catch_warnings():
+            warnings.simplefilter('ignore')
+            reg_before = c.get_predictive_model().get_dosing_regimen()
+            post_ = c.get_log_posterior(individual='2')
+            post_(X_LL.copy())
+            reg_after = c.get_predictive_model().get_dosing_regimen()
+        same = (reg_before is None and reg_after is None) or (reg_before is not None and reg_after is not None and
+                                                              reg_before.reset_index(drop=True).equals(reg_after.reset_index(drop=True)))
+        if not same:
+            raise AssertionError('the predictive model derived from the controller after get_log_posterior carries another '
+                                 'regimen: %r -> %r' % (None if reg_before is None else reg_before.values.tolist(),
+                                                        None if reg_after is None else reg_after.values.tolist()))
+        return post_, X_LL
     raise ValueError(kind)
 
 
@@ -349,6 +363,11 @@ def replay_walk(arg):
                     evaluate(kind, obj, np.asarray(x, dtype=float) * 1.07 + 0.013, k)
             except Exception:
                 pass                # (the other point may be outside the support; only the retained results matter)
+    cnt['results_retained'] = len(kept)
+    for ref_, cp_, st_ in kept:
+        if not np.array_equal(ref_, cp_, equal_nan=True):
+            fail('Pure', 'earlier_result_changed_later', dict(step=st_))
+            break
     # epilogue of every walk: each kind of evaluation once more at the ORIGINAL point, sampling first -- whatever the walk did
     # (and whatever sampling does), the answers are those of a fresh object
     for o in (1, 2):
@@ -384,11 +403,6 @@ def replay_walk(arg):
                         break
             except Exception as e:
                 fail('Pure', type(e).__name__, dict(error=repr(e), where='closing reconfiguration', object=kind))
-    cnt['results_retained'] = len(kept)
-    for ref_, cp_, st_ in kept:
-        if not np.array_equal(ref_, cp_, equal_nan=True):
-            fail('Pure', 'earlier_result_changed_later', dict(step=st_))
-            break
     if data_hash is not None and data_hash != digest([u['obs'][0].tolist(), u['obs'][1].tolist(), u['times'][0].tolist(),
                                                       u['times'][1].tolist()]):
         fail('NoInputWrite', 'data_arrays_modified', None)
